@@ -6,8 +6,8 @@ from props import c01
 from gen_hc import Sim, Net, pick_cfg, random_traffic, pick_len
 
 PROP = "C02"
-LAKE_TARGETS = ["Uflow.Props.C02", "Uflow.Props.C02Recv", "Uflow.Props.C02Live", "uflow_driver"]
-PROPS_FILES = ["C02", "C02Recv", "C02Live"]
+LAKE_TARGETS = ["Uflow.Props.C02", "Uflow.Props.C02Recv", "Uflow.Props.C02Live", "Uflow.Props.C02Prog", "uflow_driver"]
+PROPS_FILES = ["C02", "C02Recv", "C02Live", "C02Prog"]
 TRUSTED_BASE = c01.TRUSTED_BASE
 ASSUMPTIONS = ["'bounded time' is judged with a generous virtual-time budget (TFRC may have backed off to its 23 B/s floor, see the known finding on C11); volumes are kept small accordingly",
                "liveness through the real rate controller is not a theorem (DESIGN 6/C02): it is checked on every generated fair suffix"]
